@@ -8,6 +8,7 @@ package vn
 
 import (
 	"bufio"
+	"flag"
 	"fmt"
 	"os"
 	"runtime/debug"
@@ -243,3 +244,59 @@ func runOne(h func()) (res string) {
 	h()
 	return "ok"
 }
+
+// ---- C18: driving the command line entry point ----
+//
+// Under gse these calls configure the C18-only stubs (symbolic flag cells, nondeterministic
+// parse / typecheck outcomes, EXEC / EXIT events). Natively they prepare a real invocation:
+// os.Args, a fresh flag set, generated program files, captured standard output.
+
+var (
+	cliDir    string
+	cliStdout *os.File
+	cliSaved  *os.File
+)
+
+func CliBegin() {
+	cliDir, _ = os.MkdirTemp("", "vncli")
+	os.Args = []string{"grits"}
+	flag.CommandLine = flag.NewFlagSet("grits", flag.ExitOnError)
+	cliSaved = os.Stdout
+	cliStdout, _ = os.CreateTemp(cliDir, "stdout")
+	os.Stdout = cliStdout
+}
+
+func CliFlagBool(name string, v bool) { os.Args = append(os.Args, fmt.Sprintf("--%s=%v", name, v)) }
+func CliFlagInt(name string, v int)   { os.Args = append(os.Args, fmt.Sprintf("--%s=%d", name, v)) }
+
+// CliArgs appends n file arguments; the first file parses iff parseOK and typechecks iff typeOK.
+func CliArgs(n int, parseOK, typeOK bool) {
+	for i := 0; i < n; i++ {
+		text := "prc[a] : 1 = print zzhello; close self\n"
+		if !parseOK {
+			text = "prc[a : = \n"
+		} else if !typeOK {
+			text = "prc[a] : 1 * 1 = print zzhello; close self\n" // ill-typed, but harmless to run unchecked
+		}
+		f := fmt.Sprintf("%s/p%d.grits", cliDir, i)
+		os.WriteFile(f, []byte(text), 0644)
+		os.Args = append(os.Args, f)
+	}
+}
+
+func cliOutput() string {
+	if cliStdout == nil {
+		return ""
+	}
+	os.Stdout = cliSaved
+	cliStdout.Sync()
+	b, _ := os.ReadFile(cliStdout.Name())
+	os.RemoveAll(cliDir)
+	return string(b)
+}
+
+// CliRan: the program was executed (natively: its label was printed).
+func CliRan() bool { return strings.Contains(cliOutput(), "zzhello") }
+
+// CliTypechecked: 1 yes, 0 no, -1 not observable (native).
+func CliTypechecked() int { return -1 }
